@@ -36,5 +36,11 @@ for c in m["checks"]:
     except jsonschema.ValidationError as ex:
         print("invalid evidence", f, ex.message[:200])
         bad += 1
+sys.path.insert(0, str(V / "harness"))
+import vlib  # noqa: E402
+off = vlib.gate()
+for o in off:
+    print("development-wide gate:", o)
+bad += len(off)
 print("validate:", "OK" if not bad else f"{bad} problem(s)", f"({len(claimed)} claimed, {len(na)} not claimed)")
 sys.exit(1 if bad else 0)
